@@ -39,6 +39,7 @@ type Contract struct {
 	Line     int
 	Props    []string
 	Requires []Clause
+	Decreases *Clause // termination measure of a recursive function (Int expression over the parameters)
 	Ensures  []Clause
 	LoopInv  map[int][]Clause
 	Asserts  []CutAssert
@@ -61,6 +62,9 @@ type Contract struct {
 	logs       []string
 	LogParams  map[string]string // parameter name -> ghost log of the dynamic calls made through it
 	NoMapRange []string          // callee-name substrings that must not be called inside a loop ranging over a map
+	WriteFrame  bool             // every heap store must target memory allocated by this call or context-owned memory
+	FreshResult bool             // (trusted specs) the result is a fresh allocation
+	NoNilChecks bool             // sweep: nil-dereference obligations are not generated
 }
 
 type SpecFun struct {
@@ -271,6 +275,9 @@ func (ct *ContractTable) LoadFile(path, pkg string, inRepo bool) {
 			switch kw {
 			case "requires":
 				cur.Requires = append(cur.Requires, mk(rest))
+			case "decreases":
+				c := mk(rest)
+				cur.Decreases = &c
 			case "ensures":
 				c := mk(rest)
 				c.Trusted = !inRepo
@@ -322,12 +329,21 @@ func (ct *ContractTable) LoadFile(path, pkg string, inRepo bool) {
 				// nomaprange <callee substrings>: these calls must not happen inside a loop that ranges
 				// over a map (Go randomises the iteration order; the effect would depend on it)
 				cur.NoMapRange = append(cur.NoMapRange, strings.Fields(rest)...)
+			case "writeframe":
+				cur.WriteFrame = true
+			case "fresh-result":
+				cur.FreshResult = true
 			case "noinline":
 				cur.NoInline = true
 			case "inline":
 				cur.Inline = true
 			case "safety":
+				// safety [nonil]: no-panic obligations (index, slice, type assertion, explicit panic, nil
+				// map write, division); "nonil" leaves out generic nil-dereference obligations
 				cur.Safety = true
+				if rest == "nonil" {
+					cur.NoNilChecks = true
+				}
 			case "frame":
 				cur.Frame = true
 			case "loop":
